@@ -112,7 +112,9 @@ def get_type_graph(t: type) -> graphlib.TopologicalSorter[TypeNode]:
     u = inspection.unwrap(t)
     root = TypeNode(t, u)
     stack = collections.deque([root])
-    visited = {root.type}
+    # The root is visited under its own label and as the type it stands for, so a
+    #   NewType or alias of a recursive type is cut exactly where the type itself is.
+    visited = {root.type, root.unwrapped}
     while stack:
         parent = stack.popleft()
         parent_unwrapped = inspection.unwrap(parent.type)
